@@ -409,11 +409,108 @@ fn read_back(r: &mut Reader, it: &Item) -> Value {
     }
 }
 
+/// decimal boundary patterns of one integer type: 10^k, 10^k +- 1, d * 10^k, 10^k + 10^j, repeated digits
+fn decimal_sweep(signed: bool, t_idx: u8) -> Vec<Item> {
+    let bits: u32 = [8, 16, 32, 64, 128, 64][t_idx as usize];
+    let max: u128 = if signed { (1u128 << (bits - 1)) - 1 } else if bits == 128 { u128::MAX } else { (1u128 << bits) - 1 };
+    let mut vals: Vec<u128> = vec![0, max, max - 1];
+    let mut p: u128 = 1;
+    let mut pows = vec![];
+    loop {
+        pows.push(p);
+        for d in 1..=9u128 {
+            if let Some(v) = p.checked_mul(d) {
+                vals.extend_from_slice(&[v, v.saturating_sub(1), v.saturating_add(1)]);
+            }
+        }
+        // repeated digit and "1 followed by zeros then 1"
+        vals.push(p.saturating_mul(10) / 9);
+        match p.checked_mul(10) {
+            Some(q) if q <= max => p = q,
+            _ => break,
+        }
+    }
+    for (i, &a) in pows.iter().enumerate() {
+        for &b in pows.iter().take(i) {
+            vals.push(a + b);
+            if let Some(v) = a.checked_mul(3) {
+                vals.push(v + b);
+            }
+        }
+    }
+    vals.retain(|&v| v <= max);
+    vals.sort();
+    vals.dedup();
+    let mut out = vec![];
+    for v in vals {
+        if signed {
+            out.push(Item::I(v as i128, t_idx));
+            out.push(Item::I(-(v as i128), t_idx));
+            if v == max {
+                out.push(Item::I(-(v as i128) - 1, t_idx)); // MIN
+            }
+        } else {
+            out.push(Item::U(v, t_idx));
+        }
+    }
+    out
+}
+
 pub fn record(seed: u64, tier: &str, out: &str) {
     let thorough = tier == "thorough";
     let mut rng = Rng::new(seed ^ 0xC09);
     let mut t = TraceWriter::create(out);
     let buf = Writer::VERIF_BUF_SIZE;
+    // systematic decimal boundary sweep of all 12 integer types (round trip through the Reader included), in runs of
+    // 400 values so that the trace specification's per-run state stays small
+    {
+        let mut items: Vec<Item> = vec![];
+        for ti in 0..6u8 {
+            items.extend(decimal_sweep(true, ti));
+            items.extend(decimal_sweep(false, ti));
+        }
+        if !thorough {
+            // quick: every third pattern of the narrow types, all of the 64/128-bit ones
+            items = items.into_iter().enumerate().filter(|(i, it)| i % 3 == 0 || matches!(it, Item::I(_, 3..=4) | Item::U(_, 3..=4))).map(|x| x.1).collect();
+        }
+        for (ci, chunk) in items.chunks(400).enumerate() {
+            let data = Rc::new(RefCell::new(Vec::new()));
+            let mode = [SinkMode::Half, SinkMode::All, SinkMode::Random][ci % 3];
+            let mut w = Writer::new(Box::new(Sink::new(data.clone(), mode, seed + ci as u64)));
+            t.ev(json!({"ev": "reset", "sink_mode": format!("{:?}", mode), "roundtrip": true, "sweep": true, "debug_build": cfg!(debug_assertions)}));
+            let mut ok = true;
+            for it in chunk {
+                let js = item_json(it);
+                match catch(|| { write_item(&mut w, it); w.write_char(' '); }) {
+                    Ok(()) => {
+                        t.ev(json!({"ev": "w", "item": js}));
+                        t.ev(json!({"ev": "w", "item": {"k": "c", "v": 32}}));
+                    }
+                    Err(m) => {
+                        t.ev(json!({"ev": "w", "item": js, "panic": m}));
+                        ok = false;
+                        break;
+                    }
+                }
+            }
+            let r = catch(|| { w.flush(); std::mem::forget(w); });
+            {
+                let d = data.borrow();
+                let mut ev = json!({"ev": "flush", "sink": d.to_vec()});
+                if let Err(m) = r { ev["panic"] = json!(m); }
+                t.ev(ev);
+            }
+            if ok {
+                let text = data.borrow().clone();
+                let sched: Vec<i64> = (0..text.len() / 5 + 2).map(|i| 1 + (i % 9) as i64).collect();
+                let mut rd = Reader::new(Box::new(Scripted::new(text, sched, Rc::new(Cell::new(0)), Rc::new(Cell::new(0)))));
+                match catch(|| chunk.iter().map(|it| read_back(&mut rd, it)).collect::<Vec<_>>()) {
+                    Ok(b) => t.ev(json!({"ev": "rt", "back": b})),
+                    Err(m) => t.ev(json!({"ev": "rt", "back": [], "panic": m})),
+                }
+            }
+        }
+    }
     let runs = if thorough { 200 } else { 40 };
     let mut items_written = 0u64;
     let mut boundary_starts = 0u64; // writes that started within 45 bytes of the buffer boundary
